@@ -88,12 +88,20 @@ CLAIMS = {
          "'layouts/x'. The equation against the implementation (String(page) = EvaluateString of the layout text with reserves textually "
          "replaced) is decided on generated trees; duplicate inserts, and pages that also use components, are decided there too.", "8.C06",
          "refinement theorem (evaluator vs big-step semantics with reserve nodes) + loader rewriting = fill (induction on depth) + correspondence + substitution oracle on generated trees"),
- "C07": ("proof", "Theorems on the loader and evaluator model: every use of a component is resolved on its own (block = function of the file "
-         "and that use's slots), a passed body goes to the first top-level placeholder of its name and nothing else changes (induction over "
-         "the statement list), undeclared slot / slot passed twice / missing file are load errors naming the component, a use evaluates its "
-         "arguments in the caller's scope and renders in a fresh scope on top of it, a placeholder shows the passed body or nothing. "
-         "End-to-end output of pages with several uses is decided on generated trees against the per-use substitution oracle.", "8.C07",
-         "step theorems + induction over statement lists on the loader model + correspondence + per-use substitution oracle"),
+ "C07": ("proof", "Evaluation, end to end (Proofs/TemplateRefine.v, Proofs/LoadedRender.v): the big-step semantics of Spec/Template.v has "
+         "component uses (arguments in key order, each evaluated at the place of use and bound in a fresh scope on top of the scopes of that "
+         "place, the component file rendered there, the caller's scopes as they were) and slot placeholders (the passed body rendered where "
+         "the placeholder stands, or nothing), and the refinement theorem covers them: for EVERY page tree with any number of uses at any "
+         "depth - in loops, conditionals, slot bodies, inside other components, one component several times with different arguments and "
+         "bodies - Template.String on a loaded template whose statements are those of the tree (up to line numbers) gives exactly what the "
+         "semantics gives, an error where it says error (also in the form 'whenever the model answers at all'). Uses are independent "
+         "because a use is a node with its own arguments and body. Loader (Layouts.v): every use of a component is resolved on its own "
+         "(block = function of the file and that use's slots), a passed body goes to the first top-level placeholder of its name and "
+         "nothing else changes (induction over the statement list), undeclared slot / slot passed twice / missing file are load errors "
+         "naming the component. Not a theorem: that the loader's substitution over ALL slots of a use yields the tree's statements for "
+         "every component file (one slot is; the worked example discharges it by computation); generated trees are decided against the "
+         "per-use substitution oracle.", "8.C07",
+         "refinement theorem (evaluator vs big-step semantics with component and slot nodes) + step theorems and induction over statement lists on the loader model + correspondence + per-use substitution oracle"),
  "C08": ("proof", "Proved for every byte string, on the lexer and parser models: NextToken always returns; each call consumes input, returns "
          "EOF, or returns an ILLEGAL token that the next call returns again unchanged, so the token stream is finite and ends in EOF or "
          "ILLEGAL (lex_all is total); the parser - all 20 mutually recursive parse functions - returns on every such token list within the "
